@@ -43,6 +43,7 @@ def unchecked_utf8(ctx, run, rule, cone, floor=None):
     """Every from_utf8_unchecked in the cone is a site that must be listed (reviewed) in assume.json."""
     assume = load_assume()
     n = 0
+    used = set()
     for p in cone:
         b = ctx.facts.bodies[p]
         for bb, t in b.calls():
@@ -55,6 +56,17 @@ def unchecked_utf8(ctx, run, rule, cone, floor=None):
                 desc = f'{canon(nm).split("::")[-2]}::{canon(nm).split("::")[-1]}({arg})'
                 key = f'*|{p}|{desc}|0'
                 a = assume.get(key)
+                if a is None:
+                    from report import canon_desc
+                    cd = canon_desc(run.facts, p, desc)
+                    for k2, e in assume.items():
+                        kf = k2.split('|')
+                        if len(kf) >= 4 and kf[1] == p and e.get('cdesc') == cd and k2 not in used:
+                            a = e
+                            used.add(k2)
+                            break
+                else:
+                    used.add(key)
                 loc = f"{t.get('file')}:{t.get('line')}"
                 if a is not None:
                     run.assumed(rule, p, desc, a['reason'], loc)
